@@ -148,6 +148,12 @@ pub fn gen(rng: &mut Rng, n: usize, out: &mut Vec<String>) {
                 }
                 continue;
             }
+            if rng.chance(1, 12) {
+                if let Some(l) = startfl_case(&s, rng, stranger) {
+                    out.push(l);
+                }
+                continue;
+            }
             if rng.chance(1, 14) {
                 if let Some(l) = crank_case(&s, rng) {
                     out.push(l);
@@ -626,6 +632,68 @@ fn emis_case(s: &Scen, rng: &mut Rng, stranger: Pubkey) -> Option<String> {
         Err(ExecErr::Custom(code)) if code >= 6000 => Some(format!("{} => err {}", head, code)),
         Err(ExecErr::Panic) => Some(format!("{} => panic", head)),
         Err(_) => None,
+    }
+}
+
+/// `wd.startfl`: the REAL lending_account_start_flashloan inside a REAL transaction (atomic `exec_tx`, the Instructions sysvar
+/// holding the whole transaction): the start at any position, `end_index` pointing at a top-level end_flashloan for the same
+/// account / for another account / at an instruction that is no end / backwards or at itself / beyond the transaction; the
+/// account flagged disabled, in a flash loan, in receivership, frozen or not; signed by its authority or by someone else.
+/// The start's own verdict is read off the index of the first failing instruction.
+///   amount field = cur * 1000000 + end_index * 100 + (0: nothing at end_index, 1: not an end for this account, 2: an end for it)
+///   `=> ok <account flags with the in-flash-loan bit>`
+fn startfl_case(s: &Scen, rng: &mut Rng, stranger: Pubkey) -> Option<String> {
+    if s.users.len() < 2 { return None; }
+    let u = rng.below(s.users.len() as u64) as usize;
+    let v = (u + 1) % s.users.len();
+    let mut w = s.w.clone();
+    let acct_key = s.users[u].acct;
+    let mut a = w.marginfi_account(&acct_key);
+    if rng.chance(1, 4) { a.account_flags |= *rng.pick(&[ACCOUNT_DISABLED, ACCOUNT_IN_FLASHLOAN, ACCOUNT_IN_RECEIVERSHIP, ACCOUNT_FROZEN]); }
+    w.set_marginfi_account(&acct_key, &a);
+    let signer = if rng.chance(1, 6) { *rng.pick(&[stranger, s.admin]) } else { s.users[u].wallet };
+    let h = s.banks[0];
+    // the transaction: fillers, the start at `cur`, fillers, something at `target`, fillers
+    let pre = rng.below(3) as usize;
+    let mid = rng.below(3) as usize;
+    let post = rng.below(2) as usize;
+    let cur = pre;
+    let target = pre + 1 + mid;
+    let kind = rng.below(8); // what sits at `target`
+    let mut ixs: Vec<solana_sdk::instruction::Instruction> = vec![];
+    for _ in 0..pre { ixs.push(ix::accrue(&h)); }
+    ixs.push(ix::accrue(&h)); // placeholder for the start
+    for _ in 0..mid { ixs.push(ix::accrue(&h)); }
+    let own_end = ix::end_flashloan(acct_key, s.users[u].wallet, w.remaining_in_slot_order(&acct_key));
+    let (at_target, code): (Option<solana_sdk::instruction::Instruction>, i128) = match kind {
+        0 => (Some(ix::end_flashloan(s.users[v].acct, s.users[v].wallet, w.remaining_in_slot_order(&s.users[v].acct))), 1),
+        1 => (Some(ix::accrue(&h)), 1),
+        2 => (None, 0),
+        _ => (Some(own_end.clone()), 2),
+    };
+    if let Some(t) = &at_target { ixs.push(t.clone()); }
+    for _ in 0..post { ixs.push(ix::accrue(&h)); }
+    // where the start points: at the target (mostly), at itself, backwards, beyond the transaction
+    let (end_index, code) = match rng.below(10) {
+        0 => (cur, 1),
+        1 if cur > 0 => (cur - 1, 1),
+        2 => (ixs.len() + rng.below(3) as usize, 0),
+        _ => (target, if at_target.is_some() { code } else { 0 }),
+    };
+    if at_target.is_none() && end_index == target && end_index < ixs.len() { return None; } // (a filler sits there instead)
+    ixs[cur] = ix::start_flashloan(acct_key, signer, end_index as u64);
+    let amount = (cur as i128) * 1_000_000 + (end_index as i128) * 100 + code;
+    let (head, _keys) = context_line(s, &w, "wd.startfl", &acct_key, &h, signer, h.liquidity_vault, amount, false);
+    let mut toks: Vec<String> = head.split(' ').map(|x| x.to_string()).collect();
+    toks[127] = "0".to_string(); // no bank is operated on
+    let head = toks.join(" ");
+    let flags0 = a.account_flags;
+    match w.exec_tx(&ixs) {
+        Err((i, _)) if i < cur => None,
+        Err((i, ExecErr::Custom(code))) if i == cur && code >= 6000 => Some(format!("{} => err {}", head, code)),
+        Err((i, ExecErr::Panic)) if i == cur => Some(format!("{} => panic", head)),
+        Err((i, _)) if i == cur => None,
+        _ => Some(format!("{} => ok {}", head, flags0 | ACCOUNT_IN_FLASHLOAN)),
     }
 }
 
